@@ -71,6 +71,31 @@ ProgQuick(u) ==
   \* join: the target finishes by itself / is cancelled / is cleaned up while somebody joins it
   \o Fam({Y, W, Op("Join", 2, 0)}, <<1, 1, 0>>, 2, {<<>>, <<P, Ca(2)>>, <<P, Ca(1)>>, <<P, Re(2)>>, <<P, Cl>>})
 
+(* ---- four routines (MaxR = 4): stale registrations in the waiter queues ----------------------------------------- *)
+\* family given by one SET of scripts per routine; the main context creates routines 1..initn
+FamS(S1, S2, S3, S4, initn, mains) ==
+  LET creates == [r \in 1..initn |-> Op("Create", r, 1)] IN
+  SetToSeq({[scripts |-> <<a, b, c, d>>, main |-> WithTail(creates \o m)] : a \in S1, b \in S2, c \in S3, d \in S4, m \in mains})
+Rep(o, n) == [i \in 1..n |-> o]
+\* routine 4 of "three waiters + one poster": cancels up to two of the waiters (every placement: oldest, middle, newest),
+\* optionally yields (so that the cancelled waiters leave first), then makes the resource available 0..3 times
+CancelThenPost(post) == {c \o y \o Rep(post, n) : c \in SeqsUpTo({Ca(1), Ca(2), Ca(3)}, 2), y \in {<<>>, <<Y>>}, n \in 0..3}
+\* routine 4 of the foreign-resume programs (created by the main context after it resumed / cancelled a waiter):
+\* posts, lets the waiters run (a waiter with a second wait registers again), posts again
+PostYieldPost(post) == {Rep(post, a) \o y \o Rep(post, b) : a \in 0..3, y \in {<<>>, <<Y>>}, b \in 0..2}
+\* the main context lets the three waiters block, resumes / cancels one of them (oldest, middle, newest), lets it run, creates 4
+MainsForeign == {<<P, o, P, Op("Create", 4, 1)>> : o \in {Re(1), Re(2), Re(3), Ca(1), Ca(2), Ca(3)}}
+Once(o) == {<<o>>}
+OnceOrTwice(o) == {<<o>>, <<o, o>>}
+\* the holder (routine 1) cancels up to two of the three lockers while it holds the mutex, lets them leave, unlocks
+HolderCancels == {<<Lk, Y>> \o c \o <<Y, Ul>> : c \in SeqsUpTo({Ca(2), Ca(3), Ca(4)}, 2)}
+ProgStale(u) ==
+     FamS(Once(Op("Acq", 1, 0)), Once(Op("Acq", 1, 0)), Once(Op("Acq", 1, 0)), CancelThenPost(Op("Rel", 1, 0)), 4, NoMain)
+  \o FamS(Once(Op("Recv", 1, 0)), Once(Op("Recv", 1, 0)), Once(Op("Recv", 1, 0)), CancelThenPost(Op("Send", 1, 0)), 4, NoMain)
+  \o FamS(HolderCancels, {<<Lk, Ul>>, <<Lk>>}, {<<Lk, Ul>>, <<Lk>>}, {<<Lk, Ul>>, <<Lk>>}, 4, NoMain)
+  \o FamS(OnceOrTwice(Op("Acq", 1, 0)), OnceOrTwice(Op("Acq", 1, 0)), OnceOrTwice(Op("Acq", 1, 0)), PostYieldPost(Op("Rel", 1, 0)), 3, MainsForeign)
+  \o FamS(OnceOrTwice(Op("Recv", 1, 0)), OnceOrTwice(Op("Recv", 1, 0)), OnceOrTwice(Op("Recv", 1, 0)), PostYieldPost(Op("Send", 1, 0)), 3, MainsForeign)
+
 \* second quick configuration: semaphores that start at 1, conditions with "any" logic
 ProgQuick2(u) == Fam(AlphaCond, <<2, 2, 0>>, 2, NoMain) \o Fam(AlphaSem, <<1, 1, 2>>, 3, NoMain)
 
@@ -100,7 +125,7 @@ ProgAsFoundCleanup(u) == Fam(AlphaSpin, <<2, 1, 0>>, 1, NoMain)
 \* TLC evaluates every constant-level definition without parameters at start-up; the program sequences therefore take a
 \* dummy parameter and the configuration selects ONE of them by name (Programs <- ProgSel)
 CONSTANT Which
-ProgSel == CASE Which = "ProgQuick" -> ProgQuick(0) [] Which = "ProgQuick2" -> ProgQuick2(0)
+ProgSel == CASE Which = "ProgQuick" -> ProgQuick(0) [] Which = "ProgQuick2" -> ProgQuick2(0) [] Which = "ProgStale" -> ProgStale(0)
              [] Which = "ProgT1" -> ProgT1(0) [] Which = "ProgT2" -> ProgT2(0) [] Which = "ProgT3" -> ProgT3(0)
              [] Which = "ProgT4" -> ProgT4(0) [] Which = "ProgT5" -> ProgT5(0) [] Which = "ProgT6" -> ProgT6(0)
              [] Which = "ProgT7" -> ProgT7(0) [] Which = "ProgT8" -> ProgT8(0) [] Which = "ProgT9" -> ProgT9(0)
